@@ -14,6 +14,7 @@ from ..facts import eqfields
 from ..lang import N, P, Some, coq, freeze, from_json, to_json
 
 ROOT = os.path.dirname(os.path.dirname(os.path.dirname(os.path.abspath(__file__))))
+from ..rundir import GEN as _GEN  # noqa: E402
 EXTRA_PROOF_FILES = ["generated/Facts_eq.v"]
 ASSUMPTIONS = [
     "G1: every hand-written __eq__ is a flat conjunction of attribute comparisons (python ast); the mask it yields instantiates Model/Eq.veqb",
@@ -35,7 +36,7 @@ def regenerate_facts():
 
 def _regenerate_eq_facts():
     try:
-        d = eqfields.emit(os.environ.get("KV_REPO", "/repo"), os.path.join(ROOT, "coq", "generated", "Facts_eq.v"))
+        d = eqfields.emit(os.environ.get("KV_REPO", "/repo"), os.path.join(_GEN, "Facts_eq.v"))
         msg = "; ".join(d["bad_ops"] + d["problems"])
         return True, msg
     except Exception as e:
@@ -404,7 +405,7 @@ def run(tier: str, rng: random.Random, proof_ok: bool) -> dict:
     import itertools
     for vt, alpha2 in busy:
         for xts in itertools.product(alpha2, repeat=2):
-            v, c = overlap_violation("C19", vt, [], list(xts), 300 if tier == "quick" else 20000)
+            v, c = overlap_violation("C19", vt, [], list(xts), 300 if tier == "quick" else 2500)
             n_busy += c
             if v:
                 v["what"] = "two equal validators, one of them busy with another call: " + v["what"]
@@ -414,6 +415,9 @@ def run(tier: str, rng: random.Random, proof_ok: bool) -> dict:
     r = construction_history(tier)
     if r:
         report("C19:equal-but-construction-history", r, {"construction_history": True})
+    r = factory_configurations()
+    if r:
+        report("C19:equal-but-different-behaviour", r, {"factory_configurations": True})
     # model vs implementation on the equality verdicts
     mism = model_verdicts(lines, violations)
     cov = {"evaluations": n_pairs + n_rebuild + n_probe, "distinct_nontrivial": n_pairs,
@@ -500,6 +504,55 @@ def construction_history(tier: str) -> Optional[str]:
     return None
 
 
+def factory_configurations() -> Optional[str]:
+    """Configuration objects made by one factory with different parameters (coercers, predicates, processors built
+    from one function or lambda definition): validators holding them are equal only if they behave equally."""
+    from koda import Just, nothing
+    from koda_validate import Coercer, IntValidator, ListValidator, OptionalValidator, Predicate, Processor, StringValidator
+
+    def int_in_base(base):
+        def fn(v):
+            if type(v) is str:
+                try:
+                    return Just(int(v, base))
+                except ValueError:
+                    return nothing
+            return nothing
+        return Coercer(fn, {str})
+
+    def prefixer(p):
+        class Pre(Processor):          # type: ignore
+            def __call__(self, val):
+                return p + val
+        return Pre()
+    pairs = [(IntValidator(coerce=int_in_base(10)), IntValidator(coerce=int_in_base(16)), ["10", "ff", "7"]),
+             (ListValidator(IntValidator(coerce=int_in_base(10))), ListValidator(IntValidator(coerce=int_in_base(16))), [["10"], ["ff"]]),
+             (OptionalValidator(IntValidator(coerce=int_in_base(2))), OptionalValidator(IntValidator(coerce=int_in_base(10))), ["10", "2", None]),
+             (IntValidator(coerce=Coercer(lambda v: Just(1), {str})), IntValidator(coerce=Coercer(lambda v: Just(2), {str})), ["x"])]
+    for a, b, xs in pairs:
+        try:
+            eq = bool(a == b)
+        except Exception:  # noqa
+            continue
+        if not eq:
+            continue
+        for x in xs:
+            for mode in ("sync", "async"):
+                try:
+                    r1 = a(x) if mode == "sync" else drive(a.validate_async(x))
+                except Exception as e:  # noqa
+                    r1 = e
+                try:
+                    r2 = b(x) if mode == "sync" else drive(b.validate_async(x))
+                except Exception as e:  # noqa
+                    r2 = e
+                v1 = getattr(r1, "val", r1) if getattr(r1, "is_valid", False) else None
+                v2 = getattr(r2, "val", r2) if getattr(r2, "is_valid", False) else None
+                if getattr(r1, "is_valid", None) != getattr(r2, "is_valid", None) or v1 != v2:
+                    return f"{a!r} == {b!r} (their coercers come from one factory with different parameters) yet on {x!r} ({mode}) they return {r1!r} and {r2!r}"
+    return None
+
+
 def model_verdicts(lines, violations) -> int:
     if not lines:
         return 0
@@ -543,6 +596,10 @@ def replay(path: str) -> int:
     if not rc:
         print("no input in replay file:", j.get("what"))
         return 1
+    if rc.get("factory_configurations"):
+        r = factory_configurations()
+        print("property violated: " + r if r else "property holds for factory-made configuration objects")
+        return 1 if r else 0
     if rc.get("construction_history"):
         r = construction_history("quick")
         print("property violated: " + r if r else "property holds on this construction history")
